@@ -59,7 +59,7 @@ def gen_service_program(rng: Any, *, crash: bool = False) -> dict[str, Any]:
                     "ends_by_itself": None, "started_value": rng.random() < 0.5, "own_teardown": rng.random() < 0.4,
                     "spawn_via": rng.choice(["method", "shortcut"]),
                     # how a callable teardown action is given: plain function, functools.partial, or an object with __call__
-                    "action_form": rng.choice(["function", "function", "partial", "object", "unhashable_object", "builtin", "method_wrapper", "awaitable_object"]),
+                    "action_form": rng.choice(["function", "function", "partial", "object", "unhashable_object", "falsy_object", "builtin", "method_wrapper", "awaitable_object"]),
                     "func_form": rng.choice(["function", "function", "partial", "object", "unhashable_object", "lambda"]),
                     "start_delay": 0, "from_child": rng.random() < 0.15}
             if spec["started_value"] and rng.random() < 0.4:
@@ -318,7 +318,7 @@ class ServiceRun:
                         return (yield from inner_async().__await__())
 
                     return generator_based()
-            elif form in ("object", "unhashable_object"):
+            elif form in ("object", "unhashable_object", "falsy_object"):
                 inner_action = teardown_action
 
                 def call_action(self: Any) -> Any:
@@ -326,6 +326,8 @@ class ServiceRun:
 
                 # a callable *object* (no __qualname__ / __name__ of its own), possibly unhashable (__eq__ without __hash__)
                 extra: dict[str, Any] = {"__eq__": lambda s, o: s is o, "__hash__": None} if form == "unhashable_object" else {}
+                if form == "falsy_object":
+                    extra = {"__len__": lambda s: 0}  # (a callable whose truth value is False: a teardown action all the same)
                 teardown_action = type("Stopper", (), {"__call__": call_action, **extra})()
         return func, teardown_action
 
